@@ -10,3 +10,13 @@ mkdir -p bin evidence
 ./bin/gosym -selftest
 cp /repo/go.sum harness/go.sum
 (cd harness && go build ./... && go test -count=1 ./... 2>&1 | tail -20)
+# the engine's case-split accounting must report a split value that was assumed away
+./bin/gosym -dir harness -pkg verifh/hval -fn SplitGapSelfTest -out /tmp/verif_gap_selftest.json >/dev/null 2>&1 || true
+python3 - <<'PY'
+import json, sys, os
+r = json.load(open('/tmp/verif_gap_selftest.json'))
+os.remove('/tmp/verif_gap_selftest.json')
+if r.get('status') != 'undecided' or r.get('split_gaps') != ['z=2']:
+    print('case-split accounting self-test FAILED:', r.get('status'), r.get('split_gaps')); sys.exit(1)
+print('case-split accounting self-test ok')
+PY
